@@ -1,9 +1,125 @@
 import Driver.Util
-open Lean
+import Driver.PyJson
+import Torf.Model.Validate
+import Torf.Spec.Sound
+open Lean Torf Torf.Export Torf.Validate
 namespace Driver.C07
 
-/-- ops of property C07: `c07.<name>` -/
-def handle (op : String) (_j : Json) : Except String Json :=
-  throw s!"unknown op {op}"
+def errStr : ErrKind → String
+  | .metainfo => "metainfo"
+  | .write => "write"
+  | .value => "value"
+  | .internal t => "internal:" ++ t
+
+def resUnit : Except ErrKind Unit → Json
+  | .ok _ => jobj [("ok", jbool true)]
+  | .error e => jobj [("err", jstr (errStr e))]
+
+def resBytes : Except ErrKind Bytes → Json
+  | .ok b => jobj [("ok", jstr (hexOf b))]
+  | .error e => jobj [("err", jstr (errStr e))]
+
+def resBool : Except ErrKind Bool → Json
+  | .ok b => jobj [("ok", jbool b)]
+  | .error e => jobj [("err", jstr (errStr e))]
+
+/-- table of (utf-8 bytes, is well-formed URL) supplied by the harness; unknown strings count as
+    not well-formed -/
+def getUrlOk (j : Json) : Except String (Bytes → Bool) := do
+  let tbl ← (← getArr j "urls").mapM fun e => do
+    let a ← e.getArr?
+    if h : a.size = 2 then
+      let k ← unhex (← a[0].getStr?)
+      let v ← a[1].getBool?
+      pure (k, v)
+    else throw "urls entry must be a pair"
+  pure fun b => (tbl.lookup b).getD false
+
+def getFs (j : Json) : Except String FsOracle := do
+  let f := j.getObjValD "fs"
+  if f.isNull then pure noPath else
+    let files ← (← getArr f "files").mapM fun e => do
+      let a ← e.getArr?
+      if h : a.size = 3 then
+        pure ({ exists_ := (← a[0].getBool?), isFile := (← a[1].getBool?), size := (← a[2].getNat?) } : FileFact)
+      else throw "file fact must be a triple"
+    pure { hasPath := true, rootIsFile := (← getBool f "rootIsFile"), rootIsDir := (← getBool f "rootIsDir"),
+           rootSize := (← getNat f "rootSize"), files := files }
+
+def getItems (j : Json) : Except String Items := do
+  match (← getPy j "md") with
+  | .dict kvs => pure kvs
+  | _ => throw "md must be a dict"
+
+/-- sum of the magnitudes of all numbers in a value, and its nesting depth -/
+partial def sumAbs : PyVal → Nat
+  | .int i => i.natAbs
+  | .float (.fin t _ _) => t.natAbs
+  | .list l | .tuple l => (l.map sumAbs).sum
+  | .dict kvs => (kvs.map fun (k, v) => sumAbs k + sumAbs v).sum
+  | _ => 0
+
+partial def depth : PyVal → Nat
+  | .list l | .tuple l => 1 + (l.map depth).foldl max 0
+  | .dict kvs => 1 + (kvs.map fun (k, v) => max (depth k) (depth v)).foldl max 0
+  | _ => 0
+
+def soundParts (urlOk : Bytes → Bool) (bs : Bytes) : Json :=
+  match Sound.parse bs with
+  | none => jobj [("sound", jbool false), ("parsed", jbool false)]
+  | some v =>
+    let info := (Sound.infoOf v).getD []
+    let top := match v with | .dict t => t | _ => []
+    jobj [("sound", jbool (Sound.Sound urlOk bs)), ("parsed", jbool true),
+          ("info", jbool (Sound.infoOf v).isSome), ("name", jbool (Sound.nameOk info)),
+          ("pieceLength", jbool (Sound.pieceLength? info).isSome),
+          ("pieces", jbool (Sound.piecesLen? info).isSome),
+          ("size", jbool (Sound.size? info).isSome),
+          ("count", jbool (Sound.countOk info)),
+          ("announce", jbool (Sound.announceOk urlOk top))]
+
+/-- op `c07.eval`: {md, urls, fs?, implDump?} ↦ model results of every export, the executable
+    specification on the model's and on the implementation's bytes, and the hypotheses -/
+def eval (j : Json) : Except String Json := do
+  let md ← getItems j
+  let urlOk ← getUrlOk j
+  let fs ← getFs j
+  let v := validate urlOk fs md
+  let d := dump urlOk fs md
+  let dn := dumpNoValidate md
+  let ib := infoBytes urlOk fs md
+  let mg := magnet urlOk fs md
+  let rd := isReady urlOk fs md
+  let modelSound : Json := match d with
+    | .ok bs => soundParts urlOk bs
+    | .error _ => Json.null
+  let implSound : Json := match j.getObjValAs? String "implDump" with
+    | .ok h => match unhex h with
+      | .ok bs => soundParts urlOk bs
+      | .error _ => Json.null
+    | .error _ => Json.null
+  let filesIsDict := match PyVal.lookupStr "info" md with
+    | some (.dict info) => (match PyVal.lookupStr "files" info with | some (.dict _) => true | _ => false)
+    | _ => false
+  return jobj [("validate", resUnit v), ("dump", resBytes d), ("dumpNoValidate", resBytes dn),
+               ("info", resBytes ib), ("magnet", resUnit (mg.map fun _ => ())), ("ready", resBool rd),
+               ("modelSound", modelSound), ("implSound", implSound),
+               ("hyp", jbool (sumAbs (.dict md) < 2 ^ 53 && depth (.dict md) ≤ 100)),
+               ("hypMagnet", jbool (magnetTailOk urlOk md)),
+               ("filesIsDict", jbool filesIsDict),
+               ("hypThm", jbool (filesNotMapping md && (!fs.hasPath || pathsJoinable md))),
+               ("sumAbs53", jbool (sumAbs (.dict md) < 2 ^ 53))]
+
+/-- op `c07.sound`: {bytes, urls} ↦ the executable specification on arbitrary bytes -/
+def sound (j : Json) : Except String Json := do
+  let urlOk ← getUrlOk j
+  let bs ← getHex j "bytes"
+  return jobj [("spec", soundParts urlOk bs)]
+
+def handle (op : String) (j : Json) : Except String Json :=
+  match op with
+  | "c07.eval" => eval j
+  | "c07.sound" => sound j
+  | _ => throw s!"unknown op {op}"
 
 end Driver.C07
